@@ -1016,3 +1016,75 @@ def connect_stream_run_table(ctx, rid):
     paths = walk(fn)
     match_table(ctx, rid, fn, paths, rows, "ConnectStream::run")
     ctx.sample({"rule": rid, "fn": fn.path, "table": [[list(path_sig(p)[0])[-3:], path_sig(p)[1][:200]] for p in paths]})
+
+
+# ------------------------------------------------------------------ QUIC flow-control knobs set by the library itself
+
+FLOW_KNOBS = {
+    "receive_window": "connection-level receive window: any finite value is shared by all streams, so unread data on accepted streams (k x stream window) exhausts it and no other stream, not even a preamble or the close capsule, can make progress",
+    "stream_receive_window": "per-stream receive window: with the connection window it decides how many unread streams exhaust the shared credit",
+    "send_window": "connection-level send window: shared by all streams of the sender",
+    "max_concurrent_bidi_streams": "stream-count credit: stalled streams hold it until they finish",
+    "max_concurrent_uni_streams": "stream-count credit: stalled streams hold it until they finish",
+}
+
+
+def library_flow_control(ctx, rid):
+    """who-may-call: the library itself never narrows QUIC flow control — it passes `quinn::TransportConfig::default()` (connection window
+    unlimited) or the application's own config through, and sets only the reviewed non-flow-control knobs.  Positive control: the same
+    matcher must see the reviewed `TransportConfig` calls that exist today."""
+    A = ctx.A
+    seen = {}
+    for fn in A.fn_list:
+        if not fn.body or fn.crate != "wtransport" or "::tests::" in fn.path:
+            continue
+        for bb in fn.body["blocks"]:
+            t = bb["t"]
+            if t["k"] == "call":
+                n = t["f"].get("resolved") or t["f"].get("path") or ""
+                m = re.search(r"(?:^|[ <])quinn(?:_proto)?::(?:config::)?(?:transport::)?TransportConfig(?: as [^>]*>)?::(\w+)$", n)
+                if m:
+                    seen.setdefault(m.group(1), []).append((fn, t))
+    ctx.floor(rid, "TransportConfig call sites seen (positive control)", sum(len(v) for v in seen.values()), 6)
+    for knob, why in FLOW_KNOBS.items():
+        sites = seen.get(knob, [])
+        bad = []
+        for fn, t in sites:
+            args = t.get("args", [])
+            unlimited = len(args) >= 2 and "VarInt::MAX" in json.dumps(args[1])
+            if not (knob == "receive_window" and unlimited):
+                bad.append(fn)
+        ctx.check(rid, "library does not set TransportConfig::%s" % knob, not bad,
+                  "%s sets quinn TransportConfig::%s itself (%s)" % (", ".join(sorted({f.path for f in bad})), knob, why),
+                  bad[0].at if bad else "?", key="library sets TransportConfig::%s" % knob)
+    ctx.sample({"rule": rid, "transport_config_calls": {k: sorted({f.path.replace("wtransport::", "") for f, _ in v}) for k, v in seen.items()}})
+
+
+# ------------------------------------------------------------------ worker select loop: acceptor branches
+
+STREAM_VALUE_TYPES = (
+    "wtransport::driver::streams::Stream", "wtransport::driver::streams::QuicRecvStream", "wtransport::driver::streams::QuicSendStream",
+    "wtransport::datagram::Datagram", "wtransport::stream::RecvStream", "wtransport::stream::SendStream", "wtransport::stream::BiStream",
+    "quinn::RecvStream", "quinn::SendStream", "quinn::recv_stream::RecvStream", "quinn::send_stream::SendStream",
+)
+
+
+def acceptor_branches(ctx, rid, idx=None):
+    """Worker::accept_uni / accept_bi / accept_datagram are branch futures of the worker's select! loop and are dropped whenever another
+    branch wins.  They must therefore (a) await nothing that carries stream-read progress and (b) own no pulled stream / datagram across a
+    later suspension: whatever has been accepted is handed to a spawned task (or a reserved slot) before the next await."""
+    from corowit import CoroIndex
+    from rules.C05 import short_chain
+    idx = idx or CoroIndex(ctx.A)
+    for name in ("accept_uni", "accept_bi", "accept_datagram"):
+        c = idx.find1(r"^wtransport::driver::worker::Worker::%s::\{closure#0\}$" % name)
+        res = idx.classify({"k": "cor", "did": c.path, "local": True}, "pcf")
+        ctx.check(rid, "Worker::%s not PCF" % name, not res,
+                  "Worker::%s (a select-loop branch, dropped whenever another branch wins) awaits %s: bytes already read from the accepted stream are lost with it"
+                  % (name, [(k, short_chain(x)) for k, x in res][:3]), c.fn.at)
+        for s in c.susp:
+            owned = [nm for nm, ty in s.held_types() if idx.contains(ty, lambda d: d in STREAM_VALUE_TYPES, through_local_adts=False)]
+            ctx.check(rid, "Worker::%s|susp%d owns no pulled item" % (name, s.variant), not owned,
+                      "Worker::%s owns %s across an await inside the select loop: the accepted stream / datagram is dropped when another branch wins"
+                      % (name, owned), s.where)
+    return idx
